@@ -333,3 +333,31 @@ def softmax_stub(X, copy=True):
     E = NPX.exp(X)
     S = E.sum(axis=1, keepdims=True)
     return E / S
+
+
+def to_float_array(a):
+    """concrete float array from an object array whose entries are all constants (C boundary: scipy, POT, ...)."""
+    a = _np.asarray(a)
+    if a.dtype != object:
+        return a
+    out = _np.empty(a.shape, dtype=float)
+    of = out.reshape(-1)
+    for i, v in enumerate(a.reshape(-1)):
+        of[i] = float(v)        # raises TypeError for a genuinely symbolic entry
+    return out
+
+
+class CsgraphProxy:
+    """scipy.sparse.csgraph on concrete matrices that happen to be stored as object arrays of constants"""
+
+    def __init__(self, real):
+        self._real = real
+
+    def __getattr__(self, name):
+        f = getattr(self._real, name)
+        if not callable(f):
+            return f
+
+        def g(m, *a, **kw):
+            return f(to_float_array(m), *a, **kw)
+        return g
